@@ -440,7 +440,88 @@ def run_fsm(task):
     return out
 
 
+def nested_fsm_specs():
+    """(outer states, inner states, inner state names equal to the outer ones?, outer state hosting the inner FSM, inner init index or None)"""
+    return [(no, ni, same, host, iinit) for no in (2, 3) for ni in (2, 3) for same in (True, False) for host in (0, no - 1) for iinit in (None, ni - 1)]
+
+
+def run_nested_fsm(task):
+    """an FSM nested in a State of another FSM: `m.next` drives the FSM whose State block it is written in; the inner FSM only runs
+    (and only changes state) while the hosting outer state is selected"""
+    specs, depth = task
+    from amaranth.hdl import Module, Signal, ClockDomain
+    warnings.simplefilter("ignore")
+    out = {"cov": {"evaluations": 0, "nested_fsm_designs": 0, "fsm_sequences": 0, "nested_fsm_both_move": 0}, "samples": [], "violations": []}
+    for (no, ni, same, host, iinit) in specs:
+        onames = [f"S{k}" for k in range(no)]
+        inames = [f"S{k}" for k in range(ni)] if same else [f"T{k}" for k in range(ni)]
+        m = Module()
+        cd = ClockDomain("sync")
+        m.domains.sync = cd
+        a = Signal(2)
+        og_o = Signal(no)
+        og_i = Signal(ni)
+        cnt = Signal(3)
+        kw = {} if iinit is None else {"init": inames[iinit]}
+        with m.FSM(name="outer") as outer:
+            for s in range(no):
+                with m.State(onames[s]):
+                    if s == host:
+                        with m.FSM(name="inner", **kw) as inner:
+                            for t in range(ni):
+                                with m.State(inames[t]):
+                                    m.d.sync += cnt.eq(cnt + t + 1)
+                                    with m.If(a[0]):
+                                        m.next = inames[(t + 1) % ni]
+                    with m.If(a[1]):
+                        m.next = onames[(s + 1) % no]
+        for s in range(no):
+            m.d.comb += og_o[s].eq(outer.ongoing(onames[s]))
+        for t in range(ni):
+            m.d.comb += og_i[t].eq(inner.ongoing(inames[t]))
+        frag = elaborate(m)
+        out["cov"]["nested_fsm_designs"] += 1
+        i0 = 0 if iinit is None else iinit
+
+        def body(ctx):
+            for seq in itertools.product(range(5), repeat=depth):
+                ctx.set(cd.rst, 1); ctx.set(cd.clk, 1); ctx.set(cd.clk, 0); ctx.set(cd.rst, 0)
+                so, si, c = 0, i0, 0
+                out["cov"]["fsm_sequences"] += 1
+                for step, av in enumerate(seq):
+                    got = (ctx.get(og_o), ctx.get(og_i), ctx.get(cnt))
+                    out["cov"]["evaluations"] += 1
+                    if got != (1 << so, 1 << si, c):
+                        out["violations"].append({
+                            "sig": f"nested-fsm:{no},{ni},same={int(same)},host={host},init={iinit}",
+                            "what": f"nested FSM outer={no} states, inner={ni} states in outer state S{host} (inner names {inames}, init {iinit}) after inputs "
+                                    f"{seq[:step]}: outer ongoing={got[0]:#b} inner ongoing={got[1]:#b} cnt={got[2]}; reference outer S{so}, inner #{si}, cnt={c}",
+                            "payload": {"nested_fsm": [no, ni, same, host, iinit], "depth": depth}})
+                        return
+                    if av == 4:
+                        ctx.set(cd.rst, 1); ctx.set(cd.clk, 1); ctx.set(cd.clk, 0); ctx.set(cd.rst, 0)
+                        so, si, c = 0, i0, 0
+                    else:
+                        ctx.set(a, av); ctx.set(cd.clk, 1); ctx.set(cd.clk, 0)
+                        if so == host:
+                            c = (c + si + 1) & 7
+                            if av & 1:
+                                si = (si + 1) % ni
+                                out["cov"]["nested_fsm_both_move"] += (av >> 1) & 1
+                        if av & 2:
+                            so = (so + 1) % no
+        try:
+            run_in_testbench(frag, body)
+        except Exception as ex:
+            out["violations"].append({"sig": f"nested-fsm:{no},{ni},same={int(same)},host={host},init={iinit}:raises",
+                                      "what": f"nested FSM {(no, ni, same, host, iinit)}: {type(ex).__name__}: {ex}",
+                                      "payload": {"nested_fsm": [no, ni, same, host, iinit], "depth": depth}})
+    return out
+
+
 def _dispatch(t):
+    if t[0] == "nfsm":
+        return run_nested_fsm(t[1])
     return run_fsm(t[1]) if t[0] == "fsm" else run_batch(t[1])
 
 
@@ -468,6 +549,8 @@ def run(rep):
     specs = fsm_specs()
     for ch in chunks(specs, 2):
         tasks.append(("fsm", (ch, rep.pick(4, 6))))
+    for ch in chunks(nested_fsm_specs(), 2):
+        tasks.append(("nfsm", (ch, rep.pick(4, 6))))
     tasks = rotate(tasks, rep.seed)
     for part in pmap(_dispatch, tasks, rep.procs):
         rep.merge(part)
@@ -476,9 +559,12 @@ def run(rep):
                "after-default, zero-width test) with bodies from a pool of 15 assignments (slices, parts running off the end, Cat, Array element, "
                "sign reinterpretation, nested part/slice; RHS narrower/wider/signed), all ordered pairs of assignments, all 2-level nestings over a "
                "sub-pool; comb: x all 1024 input valuations; sync: x 5 register states x all inputs (pointwise transition check); FSMs: 2-3 states, "
-               "every init choice, 4 transition shapes, every input/reset sequence up to the depth bound. non-trivial: outputs vary with inputs")
+               "every init choice, 4 transition shapes, every input/reset sequence up to the depth bound; FSMs nested in a State of another FSM (2-3 x 2-3 states, "
+               "inner state names equal to / distinct from the outer ones, hosted in the first / last outer state, both moving on the same input), same "
+               "sequences. non-trivial: outputs vary with inputs")
     rep.setcov("exhaustive", True)
-    rep.require(rep.cov.get("modules", 0) > 500 and rep.cov.get("fsm_designs", 0) >= 10, "modules and FSMs enumerated")
+    rep.require(rep.cov.get("modules", 0) > 500 and rep.cov.get("fsm_designs", 0) >= 10 and rep.cov.get("nested_fsm_designs", 0) >= 16
+                and rep.cov.get("nested_fsm_both_move", 0) > 0, "modules, FSMs and nested FSMs enumerated")
 
 
 def _tup(x):
@@ -492,6 +578,9 @@ def replay(payload):
             return st
         stmts = [_unjson(s) for s in payload["stmts"]]
         out = run_batch(([stmts], payload["domain"]))
+        return [v["what"] for v in out["violations"]][:5]
+    if "nested_fsm" in payload:
+        out = run_nested_fsm(([tuple(payload["nested_fsm"])], payload["depth"]))
         return [v["what"] for v in out["violations"]][:5]
     if "fsm" in payload:
         n, init, trans = payload["fsm"]
